@@ -494,6 +494,7 @@ def run_property(prop, tier):
     rc = 0
     seen = set()
     n_viol = 0
+    t_min0 = time.time()
     known_hits = []
     for b, case, detail, origin in violations:
         if b in seen:
@@ -504,7 +505,8 @@ def run_property(prop, tier):
             print('KNOWN-FINDING: property=%s %s' % (prop, text))
             known_hits.append(b)
             continue
-        if hasattr(mod, 'minimize') and origin == 'generated':
+        if hasattr(mod, 'minimize') and origin == 'generated' and (
+                time.time() - t_min0 < (90 if tier == 'quick' else 600)):
             try:
                 case2, detail2 = mod.minimize(case, b)
                 if case2 is not None:
